@@ -237,6 +237,16 @@ def run_codec(case):
             back = json_to_data(js)
         except Exception as e:
             return {"crash": f"json_to_data raises {type(e).__name__}: {e}", "expr": expr}
+    # custom_objects: the named attribute is replaced, every other one decoded as usual
+    first = case["items"][0][0]
+    try:
+        back2 = json_to_data(js, custom_objects={first: ("custom", 1)})
+        cdiff = [] if back2[first] == ("custom", 1) and type(back2[first]) is tuple else [f"{first}: custom object not used"]
+        for name in d:
+            if name != first:
+                deep_same(d[name], back2[name], name, cdiff)
+    except Exception as e:
+        cdiff = [f"json_to_data(custom_objects) raises {type(e).__name__}: {e}"]
     raw = json.loads(js)
     plain = [not (isinstance(raw[name], dict) and ":serialized:" in raw[name]) for name, _ in case["items"]]
     diffs = []
@@ -245,7 +255,7 @@ def run_codec(case):
     else:
         for name in d:
             deep_same(d[name], back[name], name, diffs)
-    return {"plain": plain, "diffs": diffs, "expr": expr}
+    return {"plain": plain, "diffs": diffs, "cdiffs": cdiff, "expr": expr}
 
 
 RESERVED_KEY_SIG = "dict-attribute-with-reserved-serialized-key-not-restored"
@@ -267,6 +277,8 @@ def compare_codec(case, impl, mv):
     if "crash" in impl:
         # (repaired in /repo by 90ec19a: a dict attribute with a tuple key made data_to_json raise; corpus-tuple-key-save-raises keeps the input)
         return [("oracle-json-codec-raises", impl["crash"])]
+    if impl.get("cdiffs"):
+        probs.append(("oracle-json-codec-custom-objects", "json_to_data(custom_objects={name: obj}): " + "; ".join(impl["cdiffs"][:3])))
     if impl["diffs"]:
         probs.append(("oracle-json-codec-alters-attribute", "json_to_data(data_to_json(d)) differs from d: " + "; ".join(impl["diffs"][:3])))
     if list(mv) != impl["plain"]:
